@@ -985,7 +985,11 @@ open GoNeat.CodecTables
 	var pw, pr []string
 	emit := func(dst *[]string, calls []pcall) {
 		for _, pc := range calls {
-			*dst = append(*dst, fmt.Sprintf("{ fn := %s, kind := %s, format := %s, args := %s }", leanStr(pc.fn), leanStr(pc.kind), leanStr(pc.format), leanStrs(pc.args)))
+			verbs := []string{}
+			if pc.kind == "Fprintf" || pc.kind == "Fscanf" || pc.kind == "Sprintf" {
+				verbs = strings.Fields(pc.format)
+			}
+			*dst = append(*dst, fmt.Sprintf("{ fn := %s, kind := %s, format := %s, verbs := %s, args := %s }", leanStr(pc.fn), leanStr(pc.kind), leanStr(pc.format), leanStrs(verbs), leanStrs(pc.args)))
 		}
 	}
 	for _, fn := range []string{"plainGenomeWriter.WriteGenome", "plainGenomeWriter.writeTrait", "plainGenomeWriter.writeNetworkNode", "plainGenomeWriter.writeConnectionGene"} {
